@@ -13,43 +13,52 @@ import pickle
 from .common import Ctx, Driver, CORPUS
 
 MANIFEST = dict(
-    text=("Lean theorems over trees whose nodes, attribute dicts and attribute value lists carry object identities, for all "
-          "trees, receivers, contexts and allocator states: the event-stream/tag-stack loop of Tag.__deepcopy__ never underflows "
-          "and returns exactly the pre-order recursion (copy_refines, copy_soup_refines); erasing identities the copy is the "
-          "original: names, prefixes, namespaces, attributes in order, value-list classes, string classes, every setting incl. "
-          "hidden/sourceline/sourcepos/_is_xml (copy_same_shape, copy_soup_same_shape); its identities are exactly the next "
-          "unused ones, each once (copy_ids_exact, copy_fresh), hence disjoint from every existing tree and its root is in no "
-          "contents list (copy_disjoint, copy_detached); frame lemma for in-place mutations (attribute write/delete, value-list "
-          "change, rename, insert, clear, remove, replace) and independence in both directions (edit_frame, copy_independent); "
-          "the mirror of Tag.__eq__ decides the structural relation 'same name, same attribute map, pairwise equal children, "
-          "strings by text' (eq_iff_structural, eqSpec_tag/str/tag_str, canonL_eq_iff), is reflexive/symmetric/transitive and "
-          "blind to identities, position, classes, prefix, settings (eq_refl/symm/trans, ne_iff_not_eq, eq_depends_on_canon_only), "
-          "attribute order is irrelevant (attr_order_irrelevant); equal trees have equally many nodes, so == never identifies a tag "
-          "with one of its descendants and _event_stream's structural parent test pops like the identity test (eq_same_size, "
-          "eq_never_confuses_ancestor_and_descendant); a copy equals its original and everything the original equals, "
-          "and hashes like it under every identity-blind renderer (copy_eq, copy_eq_class, copy_hash); witness that == does not "
-          "determine hash (hash_is_not_a_function_of_eq); the model's reading of Tag.copy_self / Tag.__init__ / "
-          "BeautifulSoup.copy_self is pinned to the live source by generated tables (copy_self_source, "
-          "copy_self_forwards_every_param, soup_copy_self_source). Tie: every element of generated/parsed/edited trees x "
-          "copy.copy/deepcopy/__copy__ against the property oracle and the Lean mirror + recursion (identity numbering), "
-          "_event_stream against the recursive event list, single edits on copy resp. original with full re-inspection of the "
-          "other side (and against applyEdit); histories observe-edit-observe: every node of document and copy is hashed / rendered "
-          "/ compared BEFORE the edit, afterwards the edited side must be indistinguishable (hash, renderings, text, _is_xml) from "
-          "a never-observed twin with the same history, == must still be the structural relation, and fresh copies of the edited "
-          "element, its parent and the root must again be equal, render and hash alike (exposes per-object caches); == / != / hash on all pairs of pools of near-identical trees against an "
-          "independent structural evaluator and eqImpl, exhaustive small trees with repeated identical sub-structure, pickle "
-          "round trips of documents, tags and strings against decode()+re-parse."),
+    text=("Lean theorems over trees whose nodes, attribute dicts and attribute value lists carry object identities (attribute keys: str "
+          "or NamespacedAttribute; values: str of any class incl. Charset/ContentMetaAttributeValue, lists of any class, int/bool/None; "
+          "dict classes AttributeDict/HTMLAttributeDict/XMLAttributeDict with their __setitem__ processing), for all trees, receivers, "
+          "contexts and allocator states: the event-stream/tag-stack loop of Tag.__deepcopy__ never underflows and returns exactly the "
+          "pre-order recursion (copy_refines, copy_soup_refines, copy_root_is_copy_self); erasing identities the copy is the original: "
+          "names, prefixes, namespaces, attributes in order with key kinds, value classes and the dict class, string classes, every "
+          "setting incl. hidden/sourceline/sourcepos/_is_xml (copy_same_shape, copy_renders_identically, copy_soup_same_shape) under "
+          "the hypothesis that every dict holds values its own class stores unchanged — proved for plain dicts, for strings/lists in "
+          "any dict, and for anything stored through __setitem__ (settled_of_plain_dict, settled_of_str_list, setitem_idempotent with "
+          "its one exception witnessed); the repaired copy_self against the 4.13.0 one (old_copy_self_coerces, new_copy_self_keeps, "
+          "old_new_agree); the copy's identities are exactly the next unused ones, each once (copy_ids_exact, copy_fresh), hence disjoint "
+          "from every existing tree and its root is in no contents list (copy_disjoint, copy_detached); frame lemma for in-place "
+          "mutations and whole histories of them, independence in both directions (edit_frame, edits_frame, copy_independent, "
+          "copy_independent_history); the mirror of Tag.__eq__ decides the structural relation 'same name, same attribute map, pairwise "
+          "equal children, strings by text' (eq_iff_structural, eqSpec_tag/str/tag_str, canonL_eq_iff), is reflexive/symmetric/transitive "
+          "and blind to identities, position, classes, prefix, settings (eq_refl/symm/trans, ne_iff_not_eq, eq_depends_on_canon_only), "
+          "attribute order is irrelevant for == and for hash (attr_order_irrelevant, hash_attr_order_irrelevant); equal trees have equally "
+          "many nodes, so == never identifies a tag with one of its descendants and _event_stream's structural parent test pops like the "
+          "identity test (eq_same_size, eq_never_confuses_ancestor_and_descendant); a copy equals its original and everything the "
+          "original equals, and hashes like it under every identity-blind renderer (copy_eq, copy_eq_class, copy_hash); == implies equal "
+          "hashes exactly when the trees also agree in what == ignores (eq_hash_consistent; hash_is_not_a_function_of_eq is the witness "
+          "that it does not in general); BeautifulSoup.copy_self's document-level fields (soup_copy_info/idempotent/exact, "
+          "soup_pickle_info); pickling as a state machine: every generation is feed(decode(current tree)) whatever markup the object "
+          "still holds (pickle_generation, pickle_edit_pickle); the model's reading of Tag.copy_self / Tag.__init__ / "
+          "BeautifulSoup.copy_self / __getstate__ / __setstate__ is pinned to the live source by generated tables compared in full "
+          "(copy_self_source, copy_self_forwards_every_param, soup_copy_self_source, pickle_source). Tie: every element of "
+          "generated/parsed/edited trees x copy.copy/deepcopy/__copy__/copy_self() against the property oracle and the Lean mirror + "
+          "recursion (identity numbering), _event_stream against the recursive event list, __setitem__ of the three dict classes against "
+          "coerce, single edits on copy resp. original with full re-inspection of the other side (and against applyEdit); histories "
+          "observe-edit-observe with never-observed twins and copies after edits (exposes per-object caches); == / != / hash on all pairs "
+          "of pools of near-identical trees (22 kinds of variant) against an independent structural evaluator and eqImpl; exhaustive small "
+          "trees with repeated identical sub-structure; document-level fields of copied/pickled BeautifulSoup objects; pickle round trips "
+          "and pickle/edit/copy histories of documents, tags and strings against decode()+re-parse of the current tree."),
     design="7/C12",
-    note=("Pickling is checked on real objects only (BeautifulSoup: decode + re-parse through __getstate__/__setstate__; Tag: default "
-          "pickling of the linked structure, recursion-bound, small documents only) — no Lean statement. That _event_stream yields the "
-          "balanced event list of the tree rests on C01/C02's chain invariant and is compared on every case. Builder-level setting "
-          "objects (cdata_list_attributes, preserve_whitespace_tags, interesting_string_types, _namespaces) and the TreeBuilder of a "
-          "BeautifulSoup are shared between copy and original by design and not counted as mutable state of the tree. A copy does not "
-          "keep parser_class, the class of the attrs dict and attribute_value_list_class (recorded quirk; nothing compares or renders "
-          "them). Attributes set on the BeautifulSoup object itself are outside the quantifier (documented as having none). "
-          "Known finding: non-string attribute values (int/float/bool/None stored raw in a plain AttributeDict) are coerced or "
-          "dropped by the copy's HTMLAttributeDict."),
-    technique="Lean 4 refinement proof (stack machine = recursion), freshness/frame lemmas, decision-procedure correctness for == + differential correspondence + direct Python oracle",
+    note=("Pickling: the Lean statement is generic in decode/feed (what feed(decode(t)) is, is C05); that unpickled objects are new "
+          "objects, and Tag/NavigableString pickling (default pickling of the linked structure, recursion-bound, small documents only) are "
+          "checked on real objects only. That _event_stream yields the balanced event list of the tree rests on C01/C02's chain invariant "
+          "and is compared on every case. Builder-level setting objects (cdata_list_attributes, preserve_whitespace_tags, "
+          "interesting_string_types, _namespaces) and the TreeBuilder of a BeautifulSoup are shared between copy and original by design "
+          "and not counted as mutable state of the tree. A copy does not keep parser_class and attribute_value_list_class; a copied "
+          "BeautifulSoup does not keep parse_only, element_classes, declared_html_encoding, contains_replacement_characters (recorded, "
+          "modelled, compared; nothing compares or renders them). Attributes set on the BeautifulSoup object itself are outside the "
+          "quantifier (documented as having none). float attribute values are checked by the oracle only (the model has int/bool/None). "
+          "Values put into an HTML/XMLAttributeDict behind its back (dict.update) are processed by the copy: modelled and compared, outside "
+          "the property. Repaired defect: C12-copy-coerces-nonstring-attr (copy_self re-processed the values of a plain dict)."),
+    technique="Lean 4 refinement proof (stack machine = recursion), freshness/frame lemmas, decision-procedure correctness for ==, hash consistency + differential correspondence + direct Python oracle",
 )
 
 STR_CLASSES = ["NavigableString", "PreformattedString", "CData", "ProcessingInstruction", "XMLProcessingInstruction",
@@ -2248,7 +2257,8 @@ def run(ctx: Ctx):
                 "copies of the edited element, its parent and the root")
     ctx.assumptions = [
         "_event_stream(descendants) yields the balanced event list of the tree (C01/C02 chain invariant; compared on every receiver)",
-        "attribute values are str or list of str (type annotation _AttributeValue); raw int/float/bool/None values are the known finding",
+        "attribute values are str (any class), lists of str, int, bool or None; float by the oracle only; every dict was filled through its "
+        "own __setitem__ (tag[k] = v, Tag(attrs=...)) — dicts filled behind their back are compared with the model only",
         "builder-level setting objects (cdata_list_attributes, preserve_whitespace_tags, interesting_string_types, _namespaces) and a "
         "BeautifulSoup's TreeBuilder are shared by design and compared by value; parser_class, the attrs dict class and "
         "attribute_value_list_class are not kept by a copy (recorded quirk, modelled)",
@@ -2261,21 +2271,30 @@ def run(ctx: Ctx):
     ]
     E()
     batch = Batch(ctx)
-    stream_corpus(ctx, batch)
-    stream_nonstring(ctx)
-    stream_setitem(ctx, batch)
-    stream_soupinfo(ctx, batch)
-    stream_settings(ctx)
-    stream_small(ctx, batch, ctx.n(5, 6))
-    stream_random(ctx, batch, ctx.n(1200, 7000))
-    stream_pools(ctx, batch, ctx.n(250, 1600))
-    stream_pickle(ctx, ctx.n(300, 3000))
-    stream_pickle_history(ctx, ctx.n(250, 2500))
+    import traceback
+    streams = [("corpus", lambda: stream_corpus(ctx, batch)), ("nonstring-attr", lambda: stream_nonstring(ctx)),
+               ("setitem", lambda: stream_setitem(ctx, batch)), ("soupinfo", lambda: stream_soupinfo(ctx, batch)),
+               ("settings", lambda: stream_settings(ctx)), ("small-exhaustive", lambda: stream_small(ctx, batch, ctx.n(5, 6))),
+               ("copies", lambda: stream_random(ctx, batch, ctx.n(1000, 7000))),
+               ("equality", lambda: stream_pools(ctx, batch, ctx.n(250, 1600))),
+               ("pickle", lambda: stream_pickle(ctx, ctx.n(300, 3000))),
+               ("pickle-history", lambda: stream_pickle_history(ctx, ctx.n(250, 2500)))]
+    for name, fn in streams:
+        try:
+            fn()
+        except RecursionError:
+            raise
+        except Exception as ex:
+            # the real objects behaved in a way the check's own bookkeeping did not survive: a verdict, not a crash of the run
+            ctx.violation(f"the {name} stream could not go on: the implementation produced an object the check cannot even inspect",
+                          case={"op": "stream-error", "stream": name}, expected="inspectable objects",
+                          observed="".join(traceback.format_exception_only(type(ex), ex)).strip() + " @ " +
+                                   traceback.format_tb(ex.__traceback__)[-1].strip().replace("\n", " "), stream=name)
     batch.flush()
     if ctx.lean is not None and not ctx.lean.ok:
         ctx.notes.append("Lean obligations did not check; the generated tables describe the source of copy_self/__init__: the copies "
                          "stream (every setting x every element) is the search for a failing input")
-    ctx.notes.append("quirks observed and modelled: a copy holds an HTML/XMLAttributeDict, parser_class None, the stock "
+    ctx.notes.append("quirks observed and modelled: a copy has parser_class None, the stock "
                      "attribute_value_list_class, known_xml = the original's _is_xml; BeautifulSoup.copy_self takes the root data from "
                      "the builder; == ignores string classes, prefix, namespace and settings, so equal tags may render and hash "
                      "differently (only copies are claimed to hash alike)")
